@@ -104,6 +104,7 @@ fn main() {
         "node_sessions" => auth::sessions(&args),
         "node_commit" => auth::commit(&args),
         "node_check" => auth::check_candidate(&args),
+        "session_mirror" => auth::mirror(&args),
         "elect" => cluster::elect(&args),
         "elect_search" => cluster::elect_search(&args),
         "frame_len" => cluster::frame_len(&args),
